@@ -485,7 +485,8 @@ class PeerManager:
             getaddrinfo = asyncio.get_event_loop().getaddrinfo
             try:
                 infos = await getaddrinfo(host, 80, type=socket.SOCK_STREAM)
-            except socket.gaierror:
+            except (socket.gaierror, ValueError):
+                # ValueError (incl. UnicodeError) is raised for names that cannot be encoded
                 permit = False
                 reason = 'address resolution failure'
             else:
